@@ -11,6 +11,10 @@
 //	               == model(hand-trimmed texts)
 //	dashed parses  <=> undashed parses
 //	render(4100-byte comment + dashed) == render(dashed)     (second tokenizer, > 4096 bytes)
+//
+// Multi-tag family (multi.go): every ordered pair (thorough: also every ordered triple) of constructs
+// from a 12-entry tag alphabet, written one after the other with text in between, every subset of all
+// delimiters of the sequence dashed - what follows or precedes a dashed tag is a dimension of its own.
 package main
 
 import (
@@ -49,7 +53,7 @@ func kind(r string) string {
 	return r
 }
 
-func runCase(b *base, texts []string, mask uint, style int) *vlib.Outcome {
+func runCase(b *base, class string, texts []string, mask uint, style int) *vlib.Outcome {
 	dashed, twin, trimmed, removed := b.build(texts, mask, style)
 	e := twig.New()
 	for _, h := range helpers {
@@ -66,7 +70,7 @@ func runCase(b *base, texts []string, mask uint, style int) *vlib.Outcome {
 			cl = "dash-trims"
 		}
 	}
-	o.Class = b.name + "/" + cl + "/" + kind(rd)
+	o.Class = class + "/" + cl + "/" + kind(rd)
 	fail := func(msg string) *vlib.Outcome {
 		o.Violation = fmt.Sprintf("%s\n dashed  %q -> %.200q\n twin    %q -> %.200q\n dashed behind a 4100-byte comment -> %.200q", msg, dashed, rd, twin, rt, rb)
 		o.Detail = map[string]string{"dashed": dashed, "twin": twin, "got_dashed": rd, "got_twin": rt, "got_big": rb}
@@ -129,7 +133,7 @@ func run(t *vlib.T) {
 						for _, m := range masks {
 							m := m
 							key := fmt.Sprintf("%s/%s/u%d.%d.%d/m%d", b.name, styleNames[style], shape, ia, ib, m)
-							t.Case(key, func() *vlib.Outcome { return runCase(b, texts, m, style) })
+							t.Case(key, func() *vlib.Outcome { return runCase(b, b.name, texts, m, style) })
 						}
 						if t.Stopped() {
 							return
@@ -137,6 +141,16 @@ func run(t *vlib.T) {
 					}
 				}
 			}
+		}
+	}
+	// pass 1b: multi-tag sequences (multi.go): every ordered pair of constructs of the tag alphabet,
+	// every dash subset over all delimiters of the pair, three spellings, uniform fillings.
+	if !runSequences(t, 2, "pair", styles, "a", uniformFills(wsSeqSmall, wsSeqSmall)) {
+		return
+	}
+	if t.Thorough() {
+		if !runSequences(t, 2, "pair", []int{styleSpaced}, "q", uniformFills(wsQuick, wsQuick)) {
+			return
 		}
 	}
 	// pass 2: every text slot draws its own text independently of the others.
@@ -166,7 +180,7 @@ func run(t *vlib.T) {
 			for _, m := range masks {
 				m := m
 				key := fmt.Sprintf("%s/spaced/%s.%s/m%d", b.name, an, id.String(), m)
-				t.Case(key, func() *vlib.Outcome { return runCase(b, texts, m, styleSpaced) })
+				t.Case(key, func() *vlib.Outcome { return runCase(b, b.name, texts, m, styleSpaced) })
 			}
 			if t.Stopped() {
 				return
@@ -185,6 +199,11 @@ func run(t *vlib.T) {
 			}
 		}
 	}
+	// pass 3 (thorough): every ordered triple of constructs, every dash subset (up to 10 delimiters;
+	// 12 delimiters: all subsets of size <= 3 and the all-dashed one), one filling per slot shape.
+	if t.Thorough() {
+		runSequences(t, 3, "triple", []int{styleSpaced}, "c", uniformFills(wsSeqLead, wsSeqTrail))
+	}
 }
 
 func main() {
@@ -197,6 +216,8 @@ func main() {
 		Level: "exploration",
 		Rule: "for each of the base templates (every tag kind; opening, middle and closing tag of every block construct): every subset of its tag delimiters " +
 			"carries a dash x every whitespace filling of the neighbouring literal text within the bounds x tag spelling (spaced/tight/multi-line); " +
+			"plus multi-tag sequences: every ordered pair (thorough: and triple) of 12 constructs (print, set, do <expr>, do <name>, include, import, from, if..endif, for..endfor, block..endblock, apply..endapply, comment) " +
+			"with text in between x every subset of all delimiters of the sequence (all 2^d up to d = 10; d = 12: size <= 3 and all-dashed) x spellings x uniform fillings; " +
 			"each rendered dashed, as the hand-trimmed undashed twin, and dashed behind a 4100-byte comment (second tokenizer). " +
 			"non-trivial = at least one dash stands next to a non-empty whitespace run, i.e. the dashed source and the twin differ by more than the dashes",
 		Assumptions: []string{
@@ -211,6 +232,11 @@ func main() {
 		Extra: func(tier string, cov map[string]interface{}) {
 			cov["base_templates"] = len(bases)
 			cov["tag_delimiters_in_corpus"] = nd
+			cov["sequence_alphabet"] = len(units)
+			cov["tag_pairs"] = len(units) * len(units)
+			if tier == "thorough" {
+				cov["tag_triples"] = len(units) * len(units) * len(units)
+			}
 		},
 	})
 }
